@@ -55,7 +55,9 @@ def make_case(seed, index, tier):
                         'period': period, 'durations': durations, 'deadline': deadline,
                         'offset': rng.choice([0, 0, 0.375, 1]), 'scoped': rng.random() < 0.3,
                         # the ticker object is created some time before it is iterated
-                        'early': rng.choice([None, None, None, 0, 0.375, 1, max(period, 0) + 1])})
+                        'early': rng.choice([None, None, None, 0, 0.375, 1, max(period, 0) + 1]),
+                        # after that many ticks the iterator is handed to a child activity
+                        'handover': rng.choice([None, None, None, 1, 2])})
     return {'seed': seed, 'index': index, 'tier': tier, 'start': rng.choice([0, 0, 0.375, 1e6, 1e10, 2.0 ** 45]),
             'tickers': tickers}
 
@@ -89,43 +91,60 @@ def run_case(case):
     ends = {spec['name']: None for spec in case['tickers']}
     begins = {}
     yields = {spec['name']: [] for spec in case['tickers']}
-    stats_early = [0]
+    stats_early = [0, 0]
 
     def ticker(spec):
         name = spec['name']
+
+        state = {'count': 0, 'body_end_n': None}
+
+        async def consume(box, limit):
+            """run body iterations on the iterator in box[0]; True when the ticker is finished"""
+            try:
+                while limit is None or state['count'] < limit:
+                    now = await box[0].__anext__()
+                    log[name].append((time.now, now, sess.n, state['body_end_n']))
+                    duration = spec['durations'][state['count']]
+                    if duration:
+                        await (time + duration)
+                    state['count'] += 1
+                    state['body_end_n'] = sess.n
+                    if state['count'] >= len(spec['durations']):
+                        ends[name] = ('done', time.now)
+                        return True
+                return False
+            except IntervalExceeded:
+                ends[name] = ('IntervalExceeded', time.now)
+            except ValueError:
+                ends[name] = ('ValueError', time.now)
+            return True
 
         async def body():
             if spec['offset']:
                 await (time + spec['offset'])
             maker = usim.interval if spec['how'] == 'interval' else usim.delay
-            count = 0
-            body_end_n = None
             # kept in a box that is emptied on the way out, never in a local of its own
             # (see known finding D16 of C03)
             box = []
             try:
+                try:
+                    box.append(maker(spec['period']).__aiter__())
+                except ValueError:
+                    ends[name] = ('ValueError', time.now)
+                    return
                 if spec.get('early') is not None:
-                    box.append(maker(spec['period']))
                     if spec['early']:
                         await (time + spec['early'])
                     stats_early[0] += 1
-                else:
-                    box.append(None)
                 begins[name] = time.now
-                async for now in (box[0] if box[0] is not None else maker(spec['period'])):
-                    log[name].append((time.now, now, sess.n, body_end_n))
-                    duration = spec['durations'][count]
-                    if duration:
-                        await (time + duration)
-                    count += 1
-                    body_end_n = sess.n
-                    if count >= len(spec['durations']):
-                        ends[name] = ('done', time.now)
-                        break
-            except IntervalExceeded:
-                ends[name] = ('IntervalExceeded', time.now)
-            except ValueError:
-                ends[name] = ('ValueError', time.now)
+                if spec.get('handover'):
+                    # the first ticks are taken by this activity, the rest by a child of it
+                    if not await consume(box, spec['handover']):
+                        stats_early[1] += 1
+                        async with Scope() as inner:
+                            inner.do(consume(box, None))
+                else:
+                    await consume(box, None)
             finally:
                 box.clear()
 
@@ -152,7 +171,8 @@ def run_case(case):
     violations = [dict(v) for v in sess.violations if v['mechanism'].startswith('kernel-')]
     stats = {'ticks_checked': 0, 'exceeded_checked': 0, 'zero_period_ticks': 0,
              'cut_by_deadline': 0, 'value_errors': 0, 'activations': sess.n,
-             'created_before_iteration': stats_early[0]}
+             'created_before_iteration': stats_early[0],
+             'handed_to_another_activity': stats_early[1]}
     if outcome[0] != 'ok':
         violations.append({'mechanism': 'c14:run-failed',
                            'msg': 'run() ended with %r' % (outcome[1],)})
